@@ -92,3 +92,28 @@ func verifSetpathBare(v any, args []any) any {
 	}
 	return funcSetpath(v, args[0], args[1])
 }
+
+// VerifFreshConst makes every push of a constant deliver a fresh deep copy of
+// arrays and objects, as if the literal were built anew at each evaluation.
+var VerifFreshConst bool
+
+func verifFreshConst() bool { return VerifFreshConst }
+
+func verifFresh(v any) any {
+	switch v := v.(type) {
+	case []any:
+		w := make([]any, len(v))
+		for i, x := range v {
+			w[i] = verifFresh(x)
+		}
+		return w
+	case map[string]any:
+		w := make(map[string]any, len(v))
+		for k, x := range v {
+			w[k] = verifFresh(x)
+		}
+		return w
+	default:
+		return v
+	}
+}
